@@ -19,10 +19,14 @@ ExpGrad(c, t, i) == LET dz == DZNonRec(c.agp, t, i)[c.agp.start] IN FoldSet(LAMB
 GradOK(c, r) == \A e \in Entries(c) : LET o == r.grads[e[1]][e[2]] x == ExpGrad(c, e[1], e[2]) IN
                    IF IsAbsent(o) THEN x = 0 ELSE o[1] <= x /\ x <= o[2]
 
+UsedNts(g) == {g.start} \cup { g.rules[i].lhs : i \in DOMAIN g.rules }
+              \cup { l \in UNION { { g.rules[i].edges[k].lab : k \in DOMAIN g.rules[i].edges } : i \in DOMAIN g.rules } : ~g.els[l].t }
 RunClause(c, z, r) ==
   IF r.out # "ok" THEN "Raised"
-  ELSE IF DOMAIN r.res # Nts(c.agp) THEN "EveryNonterminalHasAValue"
-  ELSE IF \E X \in Nts(c.agp) : ~TensorEq(c.agp, X, r.res[X], z[r.sr][X]) THEN "ResultIndependentOfPresentation"
+  \* (registering a label is an OPTIONAL step of the builder machine: a schedule may finish without ever mentioning a
+  \*  nonterminal that has no rules and occurs in no rule -- the grammar built along it does not contain that label)
+  ELSE IF ~(UsedNts(c.agp) \subseteq DOMAIN r.res /\ DOMAIN r.res \subseteq Nts(c.agp)) THEN "EveryNonterminalHasAValue"
+  ELSE IF \E X \in DOMAIN r.res : ~TensorEq(c.agp, X, r.res[X], z[r.sr][X]) THEN "ResultIndependentOfPresentation"
   \* (no gradient claim when a weight is infinite: outside the dual-number carrier)
   ELSE IF r.hasgrad /\ (\A t \in Terms(c.agp) : \A i \in DOMAIN c.agp.w[t] : c.agp.w[t][i] # INF) /\ ~GradOK(c, r) THEN "GradientIndependentOfPresentation"
   ELSE "ok"
